@@ -140,6 +140,15 @@ func run(t failer, c Case, labels ...string) {
 		return
 	}
 	vk.R.Case(len(in.xgo) > 0, string(c.Src))
+	// how much of the input space the listed shapes blind: every source that shows one is counted
+	if len(in.shapes) > 0 {
+		vk.R.Class("shows-listed-shape=yes")
+		for _, sh := range in.shapes {
+			if vk.R.KnownClass("shape/"+sh) != nil {
+				vk.R.Class("covered-by-known-shape=" + sh)
+			}
+		}
+	}
 	if len(in.xgo) > 0 && len(c.Src) < 1500 {
 		vk.R.Sample(string(c.Src))
 	}
